@@ -583,6 +583,10 @@ func TestReplay(t *testing.T) {
 		replayStreams(t, c, doc.Data)
 		return
 	}
+	if doc.Check == "subcommands" {
+		replaySubCommands(t, c, doc.Data)
+		return
+	}
 	if doc.Check == "concurrent" {
 		replayConcurrent(t, c, doc.Data)
 		return
